@@ -48,7 +48,7 @@ def known_difference(text, spec_wf, expat_wf):
             return 'expat-accepts-version-1.0-only?'
     if spec_wf and not expat_wf and any(ord(c) > 127 for c in text):
         # names: 4th-edition tables; retry with every non-ASCII character replaced by a letter
-        t2 = ''.join(c if ord(c) < 128 else 'x' for c in text)
+        t2 = ''.join(c if ord(c) < 128 else 'y' for c in text)
         if _parse(t2, False) == 'wf':
             return 'expat-4th-edition-name-characters'
     if not spec_wf and expat_wf and any(ord(c) > 127 for c in text):
